@@ -5,7 +5,7 @@ VERIF = os.path.dirname(os.path.dirname(os.path.abspath(__file__)))
 ALL = [f"C{i:02d}" for i in range(1, 21)]
 
 # commits in /repo whose message starts with `verif-hook:` (cfg-guarded verification hooks)
-HOOK_COMMITS = ["12ac8be", "d787177", "4c25ac6"]
+HOOK_COMMITS = ["12ac8be", "d787177", "746a7e5"]
 
 CLAIMS = {
  "C04": dict(
@@ -668,7 +668,7 @@ CLAIMS["C04"]["note"] += (
     "Parser.events): grammar_stepOK (no grammar function touches the tokens, moves the cursor back or past the end), "
     "grammar_advances_cover_cursor, fileItems_ends_at_eof, file_consumes_all_tokens_partial (file() ends at the end of the input with one "
     "Advance per token whenever the model's call budget did not run out; that it never does is observed, not proved). Found by this work and "
-    "fixed (76b89dc in the worker's repo): parser panic at entry assertions / unreachable!() when a look takes the last unit of fuel "
+    "fixed (bec8f9c): parser panic at entry assertions / unreachable!() when a look takes the last unit of fuel "
     "(match with 250 prefix operators in the scrutinee).")
 CLAIMS["C03"]["text"] += (
     " Round 11 — type soundness of the reference semantics: Model/ValTy.lean types the VALUES of Sem (valTy: scalars by width, "
@@ -729,7 +729,7 @@ def main():
                       "the only guarded code is `#[cfg(goml_verif)] impl Typer { verif_fresh, verif_tvar, verif_tvar_index, verif_unify, "
                       "verif_norm, verif_probe, verif_push_constraint, verif_constraints, verif_var_count }` at the end of "
                       "crates/compiler/src/typer/unify.rs (accessors to the private norm/unify, the constraint queue and "
-                      "the union-find table; no behaviour depends on them), and (round 11, commit 4c25ac6 of the worker's worktree) in "
+                      "the union-find table; no behaviour depends on them), and (round 11, commit 746a7e5) in "
                       "crates/compiler/src/typer/toplevel.rs a thread-local observer `verif_set_fn_observer` that `typecheck_fn` calls through three "
                       "`#[cfg(goml_verif)]` statements (at entry, before `solve`, after `solve`; it only reads) plus `verif_ty_from_hir`, re-exported "
                       "from typer/mod.rs. Everything else links the crates in /repo by path unguarded.",
